@@ -8,6 +8,10 @@ import (
 	"github.com/enbility/spine-go/model"
 )
 
+// the use case data is shared by all entities of a device and is updated
+// by copying, modifying and storing it, which must not be interleaved
+var muxUseCase sync.Mutex
+
 type EntityLocal struct {
 	*Entity
 	device   api.DeviceLocalInterface
@@ -138,6 +142,9 @@ func (r *EntityLocal) AddUseCaseSupport(
 	useCaseAvailable bool,
 	scenarios []model.UseCaseScenarioSupportType,
 ) {
+	muxUseCase.Lock()
+	defer muxUseCase.Unlock()
+
 	nodeMgmt := r.device.NodeManagement()
 
 	data, err := LocalFeatureDataCopyOfType[*model.NodeManagementUseCaseDataType](nodeMgmt, model.FunctionTypeNodeManagementUseCaseData)
@@ -178,6 +185,9 @@ func (r *EntityLocal) SetUseCaseAvailability(
 	actor model.UseCaseActorType,
 	useCaseName model.UseCaseNameType,
 	available bool) {
+	muxUseCase.Lock()
+	defer muxUseCase.Unlock()
+
 	nodeMgmt := r.device.NodeManagement()
 
 	data, err := LocalFeatureDataCopyOfType[*model.NodeManagementUseCaseDataType](nodeMgmt, model.FunctionTypeNodeManagementUseCaseData)
@@ -200,6 +210,9 @@ func (r *EntityLocal) RemoveUseCaseSupport(
 	actor model.UseCaseActorType,
 	useCaseName model.UseCaseNameType,
 ) {
+	muxUseCase.Lock()
+	defer muxUseCase.Unlock()
+
 	nodeMgmt := r.device.NodeManagement()
 
 	data, err := LocalFeatureDataCopyOfType[*model.NodeManagementUseCaseDataType](nodeMgmt, model.FunctionTypeNodeManagementUseCaseData)
@@ -219,6 +232,9 @@ func (r *EntityLocal) RemoveUseCaseSupport(
 
 // Remove all usecases
 func (r *EntityLocal) RemoveAllUseCaseSupports() {
+	muxUseCase.Lock()
+	defer muxUseCase.Unlock()
+
 	nodeMgmt := r.device.NodeManagement()
 
 	data, err := LocalFeatureDataCopyOfType[*model.NodeManagementUseCaseDataType](nodeMgmt, model.FunctionTypeNodeManagementUseCaseData)
